@@ -187,6 +187,8 @@ def main(pid, tier, seed):
         # repeated passwords the Markov side cannot rate (shorter than the n-gram size 3, longer than 21 characters, a character
         # outside the alphabet): every occurrence counts the same in every spelling of the list
         recs += [(3, 'ab', None), (2, 'y' * 25, None), (3, 'q~' + 'z' * 4, None)]
+        if k % 3 == 1:
+            recs += [(2, 'correcthorse', None), (1, 'BatteryStaple9', None)]
         if encoding == 'utf-8':
             # a password that BEGINS with U+FEFF (the bytes of a byte-order mark) is a password like any other, in every spelling;
             # it is never the first line of the file
@@ -198,12 +200,21 @@ def main(pid, tier, seed):
         for n_, s_, _ in recs:
             if not any(c in s_ for c in '\x0c\t'):
                 meant_t += [s_] * n_
+        # every third list is trained with a pre-training word list for the multi-word detector (--multiword): that file is one plain
+        # word per line in every spelling of the training list; the list then holds passwords only the pre-trained words split
+        mwf = None
+        if k % 3 == 1:
+            mwf = os.path.join(d, 'words.txt')
+            with open(mwf, 'wb') as f_:
+                for w_ in ('correct', 'horse', 'battery', 'staple'):
+                    f_.write(w_.encode(encoding) + b'\n')
         for name in ('plain', 'hex', 'count', 'mixed'):
             p, pc = variants[name]
-            res = train.train(training_file=p, encoding=encoding, prefixcount=pc, ngram=3, coverage=0.6)
+            res = train.train(training_file=p, encoding=encoding, prefixcount=pc, ngram=3, coverage=0.6, multiword=mwf or False)
             digs[name] = digest_ruleset(res['dir']) if res['ok'] else [('FAILED', res['error'] or 'x')]
             # the three passes of the REAL run_trainer (each constructs its own reader): same sequence, the meant one
-            passes = [fi_.verif_yielded for fi_ in res['captured'].get('file_inputs', [])]
+            passes = [fi_.verif_yielded for fi_ in res['captured'].get('file_inputs', [])
+                      if getattr(fi_, 'filename', None) != mwf]          # (the reader of the --multiword word list is not a pass)
             if res['ok']:
                 while len(passes) < 3:
                     passes.append([])
